@@ -28,7 +28,7 @@ def run(ctx: core.Run):
     # 2. exhaustive: every history of <= depth candidate operations from three small trees
     depth = 2 if ctx.quick else 3
     for recipe in T.SMALL_TREES:
-        lim = (4000 if recipe[0] == "nest" else None) if ctx.quick else (30000 if recipe[0] != "nest" else 12000)
+        lim = 4000 if ctx.quick else (30000 if recipe[0] != "nest" else 12000)
         for d in range(1, depth + 1):
             hs = T.exhaustive_histories(recipe, d, level=1, limit=lim if d == depth else None, rng=rng)
             for h in hs:
